@@ -186,7 +186,8 @@ def runOpTransform (op : String) (args : List String) : String :=
       match c.name with
       | "punctuation_verylow" => firstFail [okIf (Spec.WF b) "not-well-formed", okIf (Spec.contentKept a b) "content-changed",
           okIf (Spec.verylowPostT b) "punctuation-not-beside-left-neighbour",
-          others (fun s => s.isLeaf && Spec.isPunctWordP s)]
+          -- the sentence-initial token has no left neighbour and stays where it is (`verylow_parents'`)
+          others (fun s => s.isLeaf && Spec.isPunctWordP s && s.num != a.leftmost)]
       | "punctuation_root" => firstFail [okIf (Spec.WF b) "not-well-formed", okIf (Spec.contentKept a b) "content-changed",
           okIf (Spec.rootPostP b) "punctuation-not-at-root",
           others (fun s => s.isLeaf && Spec.isPunctWordP s)]
